@@ -465,6 +465,17 @@ def m_range_contains(ip, st, fr, t, args):
     return None
 
 
+def m_partial_ne(ip, st, fr, t, args):
+    """default PartialEq::ne: the negation of the type's own eq (a derived body of the crate)"""
+    decl = t["callee"].get("decl") or ""
+    if not decl.endswith("::ne"):
+        return None
+    key = decl[:-4] + "::eq"
+    if key not in ip.f.bodies:
+        return None
+    return ("tailcall", key, list(args), lambda s, r: Int((bv.M.NOT(r.bits[0]),)) if isinstance(r, Int) else Opaque("ne"))
+
+
 def is_range_index(path, full):
     return (path.endswith("::index") or path.endswith("::index_mut")) and ("ops::Range" in full) and ("[" in full or "Vec<" in full)
 
@@ -510,6 +521,7 @@ def standard_models():
         (is_int_convert, m_int_convert),
         (is_range_index, m_range_index),
         (is_combinator, m_combinator),
+        (lambda p, f: p in ("std::cmp::PartialEq::ne", "core::cmp::PartialEq::ne"), m_partial_ne),
         (lambda p, f: p in ("std::ops::RangeInclusive::<Idx>::new", "core::ops::RangeInclusive::<Idx>::new"), m_rangeincl_new),
         (lambda p, f: p in ("std::ops::RangeInclusive::<Idx>::contains", "core::ops::RangeInclusive::<Idx>::contains", "std::ops::Range::<Idx>::contains", "core::ops::Range::<Idx>::contains"), m_range_contains),
         (lambda p, f: p in ("core::bool::<impl bool>::then_some", "std::bool::<impl bool>::then_some"), m_bool_then),
